@@ -41,6 +41,10 @@ DOCS = [
      '<iframe id="if2"><html><head><title>i</title></head><body><p id="i1">i</p><form><input type="radio" name="g" id="i2"><input type="submit" id="i3"></form>'
      '</body></html></iframe><p id="o3">z</p><form id="of"><input type="radio" name="g" checked id="o4"><input type="radio" name="g" id="o5"></form></body></html>'),
     # 5: plain XML with a prefixed namespace and HTML-looking attributes
+    # 6: structurally identical twins: two forms with the same markup, two identical rows (bs4 compares Tags by markup)
+    ('html.parser', '<html><body><form><input type="radio" name="g"><input type="submit"></form><p>t</p>'
+     '<form><input type="radio" name="g"><input type="submit"></form><table><tr><td>a</td></tr><tr><td>a</td></tr></table>'
+     '<form><input type="radio" name="g" checked><input type="submit"></form></body></html>'),
     ('xml', '<r xmlns:x="urn:x"><x:item id="1"/><x:item id="2" checked="checked"/><x:item id="3" disabled="disabled"/><item id="4"/>'
      '<x:item id="5"><x:item id="6"/></x:item></r>'),
 ]
@@ -68,8 +72,11 @@ def _rand_doc(rng):
         if k == 5:
             return '<input type="checkbox"%s><span>x</span>' % rng.choice(['', ' checked', ' indeterminate'])
         return '<p>x</p><p>x</p>'
+    body = []
+    for _ in range(rng.randint(2, 5)):
+        body.append(rng.choice(body) if body and rng.random() < 0.3 else block(0))      # verbatim twins are likely
     return ('html.parser', '<html%s><head>%s</head><body>%s</body></html>' % (
-        rng.choice(['', '', ' lang="en"']), rng.choice(['', META % 'en', META % 'de']), ''.join(block(0) for _ in range(rng.randint(2, 5)))))
+        rng.choice(['', '', ' lang="en"']), rng.choice(['', META % 'en', META % 'de']), ''.join(body)))
 
 
 def _all_docs():
@@ -80,8 +87,9 @@ SELS = [':lang("")', ':lang(en)', ':lang("*")', ':default', ':indeterminate', ':
         ':has(> :default)', ':nth-child(2 of :lang(en))', ':scope > *', ':lang(de, fr)', 'input:not(:indeterminate)',
         ':-soup-contains(x)', ':enabled', 'x|item:not(:checked)', 'x|item, :checked', ':is(x|item):not(:disabled)', 'x|*', 'p:lang(en)']
 # the order matters for the reduced BFS pools (prefixes of these lists): most history-sensitive first
+SELS += [':scope + tr td', 'form:has(:default)']
 SELS = [SELS[i] for i in (1, 20, 3, 4, 0, 24, 16, 21)] + [x for i, x in enumerate(SELS) if i not in (1, 20, 3, 4, 0, 24, 16, 21)]
-USES_SCOPE = {':scope > *'}
+USES_SCOPE = {':scope > *', ':scope + tr td'}
 KINDS = ['select', 'match', 'filter', 'closest', 'select_one', 'iselect1', 'filter_iter']
 
 
